@@ -3,7 +3,34 @@ API only (constructors, Part.add, Part.set_quarter_duration, attribute
 assignment as the importers do)."""
 
 
-def build_part(ap, with_pages=False, late_structure=False):
+def late_order(qdivs):
+    """order in which the later quarter-duration changes are declared after the first one: latest first where that is
+    possible.  A declaration whose value equals the value in force at its time at that moment would not be a change
+    (the library does not record it), so such orders are not used: fall back towards time order."""
+    rest = [tuple(x) for x in qdivs[1:]]
+
+    def ok(order):
+        table = {qdivs[0][0]: qdivs[0][1]}
+        for t, q in order:
+            before = [k for k in table if k <= t]
+            if before and table[max(before)] == q:
+                return False
+            table[t] = q
+        return True
+
+    cands = [list(reversed(rest))]
+    for i in range(len(rest) - 1):
+        c = list(rest)
+        c[i], c[i + 1] = c[i + 1], c[i]
+        cands.append(c)
+    cands.append(rest)
+    for c in cands:
+        if ok(c):
+            return c
+    return rest
+
+
+def build_part(ap, with_pages=False, late_structure=False, late_divs=False):
     """late_structure: add notes first, query the part (note array, time maps) as a user inspecting a half-built
     part would, and only then add measures and time signatures - the finished part must not remember the queries"""
     import partitura.score as S
@@ -11,7 +38,10 @@ def build_part(ap, with_pages=False, late_structure=False):
     from partitura.directions import parse_direction
 
     part = S.Part(ap["id"], part_name=ap.get("name"), part_abbreviation=ap.get("abbr"))
-    for t, q in ap["qdivs"]:
+    # late_divs: only the first quarter duration is declared up front; the later changes are declared after the
+    # objects have been added, latest first (every declaration then lies before an already declared change) -
+    # the finished part must be the same
+    for t, q in (ap["qdivs"][:1] if late_divs else ap["qdivs"]):
         part.set_quarter_duration(t, q)
     if with_pages:
         part.add(S.Page(1), 0)
@@ -82,6 +112,9 @@ def build_part(ap, with_pages=False, late_structure=False):
                 except Exception:
                     pass
         add_structure()
+    if late_divs:
+        for t, q in late_order(ap["qdivs"]):
+            part.set_quarter_duration(t, q)
     for sl in ap.get("slurs", []):
         a, b = objs[sl["start"]], objs[sl["end"]]
         slur = S.Slur(a, b)
@@ -117,10 +150,10 @@ def build_part(ap, with_pages=False, late_structure=False):
     return part
 
 
-def build_score(asc, with_pages=False, set_ends=False, late_structure=False):
+def build_score(asc, with_pages=False, set_ends=False, late_structure=False, late_divs=False):
     import partitura.score as S
 
-    parts = [build_part(ap, with_pages, late_structure) for ap in asc["parts"]]
+    parts = [build_part(ap, with_pages, late_structure, late_divs) for ap in asc["parts"]]
     if set_ends:
         for p in parts:
             S.set_end_times(p)
